@@ -82,6 +82,18 @@ pub fn c09_run(args: &Args) -> i32 {
             sessions.push(lines);
         }
     }
+    // back-to-back: the next go is sent right after stop, without waiting for the bestmove
+    for p in P9.iter().take(npos) {
+        let pl = position_line(p.fen, &spos::hist(p));
+        sessions.push(vec![pl.clone(), "go infinite".into(), "stop!".into(), "go depth 1".into(), "isready".into()]);
+        sessions.push(vec![pl.clone(), "go infinite".into(), "stop!".into(), "go infinite".into(), "stop!".into(), "go movetime 30".into(), "isready".into()]);
+    }
+    // capture-dense positions with the real clock
+    for p in spos::DENSE.iter() {
+        let pl = position_line(p.fen, &spos::hist(p));
+        sessions.push(vec![pl.clone(), "go movetime 100".into(), "isready".into(), "go nodes 500".into(), "isready".into()]);
+        sessions.push(vec![pl.clone(), "go wtime 2000 btime 2000".into(), "isready".into(), "go infinite".into(), "stop".into(), "isready".into()]);
+    }
     let gos = AtomicU64::new(0);
     let max_wait = AtomicU64::new(0);
     let machinery: Mutex<Vec<String>> = Mutex::new(vec![]);
